@@ -1,7 +1,8 @@
 from contracts.sweep import CONTRACTS as _C, INFO_CONTRACTS as _I
-from contracts.writer import FetchHandleStub, WriteAttributes
+from contracts.writer import FetchHandleStub, StoredEditsNative, WriteAttributes
+from contracts.removal import ConcatAttributesPending
 from contracts.h5graph import FetchHandle as _FH, WriteArrayAttribute
-CONTRACTS = list(_C) + list(_I) + [FetchHandleStub, WriteAttributes, _FH, WriteArrayAttribute]
+CONTRACTS = list(_C) + list(_I) + [FetchHandleStub, WriteAttributes, _FH, WriteArrayAttribute, ConcatAttributesPending, StoredEditsNative]
 
 MANIFEST = {
     "category": "proof",
